@@ -5,7 +5,7 @@
 RUNS=${1:-1200}
 V=$(cd "$(dirname "$0")/.." && pwd)
 BIN=$(dirname "$(rustup which --toolchain nightly rustc)")/../lib/rustlib/x86_64-unknown-linux-gnu/bin
-(cd "$V/sim" && RUSTFLAGS="--cfg grenad_verif -C overflow-checks=on -C instrument-coverage" cargo +nightly build --release --offline --target-dir ../target-cov) || exit 2
+(cd "$V/sim" && LLVM_PROFILE_FILE="$V/target-cov/build-%p.profraw" RUSTFLAGS="--cfg grenad_verif -C overflow-checks=on -C instrument-coverage" cargo +nightly build --release --offline --target-dir ../target-cov) || exit 2
 rm -rf "$V/target-cov/prof" && mkdir -p "$V/target-cov/prof"
 for p in C01 C02 C03 C04 C05 C06 C07 C08 C09 C10 C11 C12 C13 C15 C16 C17 C18; do
   LLVM_PROFILE_FILE="$V/target-cov/prof/$p-%p.profraw" VERIF_DIR="$V/target-cov/vd" "$V/target-cov/release/grenad-sim" check --prop $p --tier quick --runs "$RUNS" --jobs 8 | tail -1
